@@ -438,6 +438,7 @@ class H2ConnModel:
 
     def m_end_stream(self, interp, obj, args, kwargs, fr):
         sid = z3_of_int(args[0])
+        interp.unit_call_requires("H2Connection.end_stream", fr)
         self._require_open(interp, obj, sid, fr, "end_stream")
         obj.fields["open"] = z3.Store(obj.fields["open"], sid, z3.BoolVal(False))
         interp.traces.setdefault("h2", []).append(("end_stream", mk_int(sid)))
